@@ -248,6 +248,22 @@ Section JwtProofs.
       destruct t as [hd cl pl sg]. cbn [t_sig t_header t_claims t_payload] in *. subst pl. reflexivity.
   Qed.
 
+  (** The decoded payload text and signature bytes determine the token text:
+      no two texts decode to the same signed text and signature (whatever the
+      verifier, so for RS256 as well). *)
+  Theorem decode_text_determined tok t :
+    decode tok = JOk t -> tok = t_payload t ++ dot :: b64_encode (t_sig t).
+  Proof.
+    intros D. apply decode_ok_iff in D. destruct D as (hb & cb & _ & _ & _ & -> & _ & _ & ->). reflexivity.
+  Qed.
+
+  Corollary decode_injective tok tok' t t' :
+    decode tok = JOk t -> decode tok' = JOk t' ->
+    t_payload t = t_payload t' -> t_sig t = t_sig t' -> tok = tok'.
+  Proof.
+    intros A B P S. apply decode_text_determined in A, B. rewrite A, B, P, S. reflexivity.
+  Qed.
+
   Hypothesis mac_bytes : forall k d, is_bytes (mac k d).
 
   (** An HS256 token verifies iff its text is exactly what [EncodeAndSign]
